@@ -11,6 +11,7 @@ var vIDKinds = []string{"", "http://h.example/ids/a.json", "sub/s.json", "sub/",
 
 // mode 0: ids x cycles; mode 1: dangling / ill-typed targets; mode 2: self-referring parameter / response / path item
 func vWorldHostile(mode int) *vWorld {
+	vUseURLSet(0)
 	kp := vChoose(vParam("kwpos", 2), "kwpos")
 	id, a, b, c := "", "", "", ""
 	self := 0
@@ -34,7 +35,7 @@ func vWorldHostile(mode int) *vWorld {
 		a = vPickRef("A", vURoot, bad)
 		b = vPickRef("B", vURoot, []vTarget{{doc: vURoot, frag: "/definitions/A", single: true}})
 	default:
-		self = 1 + vChoose(3, "selfref")
+		self = 1 + vChoose(6, "selfref")
 	}
 	idm := ""
 	if id != "" {
@@ -48,11 +49,17 @@ func vWorldHostile(mode int) *vWorld {
 		r0 = `{"$ref":"#/responses/R0"}`
 	case 3:
 		item = `{"$ref":"#/paths/~1p"}`
+	case 4: // 2-cycles of pure references
+		p0 = `{"$ref":"#/parameters/P1"}`
+	case 5:
+		r0 = `{"$ref":"#/responses/R1"}`
+	case 6:
+		item = `{"$ref":"#/paths/~1q"}`
 	}
 	w := &vWorld{root: vURoot, docs: map[string]string{}}
 	defA := `{"description":"la"` + idm + vSlotJSON(kp, vRefJSON(a)) + `}`
-	w.docs[vURoot] = `{"swagger":"2.0","info":{"title":"t","version":"1"},"x-num":1,"x-arr":[1],"x-bool":true,"x-null":null,"paths":{"/p":` + item + `},` +
-		`"parameters":{"P0":` + p0 + `},"responses":{"R0":` + r0 + `},` +
+	w.docs[vURoot] = `{"swagger":"2.0","info":{"title":"t","version":"1"},"x-num":1,"x-arr":[1],"x-bool":true,"x-null":null,"paths":{"/p":` + item + `,"/q":{"$ref":"#/paths/~1p"}},` +
+		`"parameters":{"P0":` + p0 + `,"P1":{"$ref":"#/parameters/P0"}},"responses":{"R0":` + r0 + `,"R1":{"$ref":"#/responses/R0"}},` +
 		`"definitions":{"A":` + defA + `,"B":` + vDefJSON("lb", kp, vRefJSON(b)) + `}}`
 	w.docs[vUSub] = `{"definitions":{"C d":` + vDefJSON("lc", kp, vRefJSON(c)) + `}}`
 	w.docs[vUFar] = `{"definitions":{"D":{"description":"ld"}}}`
